@@ -37,6 +37,9 @@ FLOORS = {"quick": {"decisions": 40000, "window_checks": 15000, "skipped_empty_c
                        "kind_WRR": 2000, "idle_restarts": 40000}}
 KEYS = tuple(FLOORS["quick"].keys()) + ("back_to_back", "idle_then_arrival", "arrival_at_tx_end",
                                          "arrival_at_tx_end_after_departure", "drr_fork_residue")
+# floors for the situations added with the later rounds of seeded changes (evidence that they were really exercised)
+FLOORS["quick"].update({'echoed_arrivals_inside_next_hop_put': 6000})
+FLOORS["thorough"].update({'echoed_arrivals_inside_next_hop_put': 30000})
 
 
 def plan(tier):
@@ -360,6 +363,7 @@ def one_case(ctx, case):
     cfg = case["cfg"]
     snapshot = (lambda s: dict(s.deficit)) if cfg["kind"] == "DRR" else None
     run = vs.Run(case, counters=False, snapshot=snapshot).go()
+    vs.count_features(ctx, run)
     if not run.viol:
         c12.time_rules(run, stats, run.bad)
     if not run.viol:
